@@ -203,6 +203,7 @@ type Result struct {
 	Msg     string `json:"m,omitempty"` // panic value / fatal error line
 	Alloc   uint64 `json:"a,omitempty"`
 	Micros  int64  `json:"us,omitempty"` // wall time of the call incl. site attribution
+	CallUs  int64  `json:"cus,omitempty"` // wall time of the call alone
 	Site    *Site  `json:"s,omitempty"`
 }
 
@@ -497,6 +498,7 @@ func ChildMain(targets []Target) error {
 					}
 				}
 			}()
+			res.CallUs = time.Since(t0).Microseconds()
 			runtime.ReadMemStats(&ms)
 			res.Alloc = ms.TotalAlloc - a0
 			if res.Outcome != "panic" && res.Alloc > AllocLimit && len(in.Data)+len(in.Aux) <= MaxInput {
